@@ -489,7 +489,10 @@ func runSource(in input, c *hx.Case) error {
 	}
 	src, oerr := sourcefs.OpenTraceSource(db)
 	if oerr != nil {
-		return fmt.Errorf("OpenTraceSource: %w", oerr)
+		c.Obs = map[string]any{"error": oerr.Error()}
+		c.Coq = hx.App("CSource", hx.L(rowsT), hx.None())
+		c.Tags = append(c.Tags, "source:rejected")
+		return nil
 	}
 	var obs []string
 	served := 0
@@ -506,7 +509,7 @@ func runSource(in input, c *hx.Case) error {
 		served = len(keys)
 	}
 	c.Obs = map[string]any{"served_keys": served, "files": src.Files, "roots": src.Roots}
-	c.Coq = hx.App("CSource", hx.L(rowsT), hx.L(obs))
+	c.Coq = hx.App("CSource", hx.L(rowsT), hx.Some(hx.L(obs)))
 	c.Tags = append(c.Tags, fmt.Sprintf("source:%d-rows", len(in.Rows)))
 	c.Nontrivial = served > 0
 	return nil
